@@ -52,7 +52,7 @@ def tool(name):
     return os.path.join(ENGINE, "target", "release", name)
 
 
-def run_engine(cmd, out_json, timeout=3600, cwd=None, extra_env=None, crash_tag=None):
+def run_engine(cmd, out_json, timeout=2400, cwd=None, extra_env=None, crash_tag=None):
     """Run an engine that writes a vcore::report::Report to out_json.
     crash_tag: for memory-safety checks on the unsafe build, death by a signal IS the symptom being
     looked for; it is then reported as a violation with this tag instead of a machinery error."""
